@@ -3,6 +3,7 @@ import json, os, sys
 from .core import Ctx, Infra, VERIF
 from . import checks_sem as sem
 from . import checks_store as store
+from . import checks_front as front
 
 CHECKS = {}
 
@@ -259,6 +260,28 @@ def c11(ctx):
                       "2 TLC-chosen interleavings, 8 free goroutines under the race detector; non-trivial = the script produces postings")
 
 
+@check("C13")
+def c13(ctx):
+    ctx.assumptions += ["TLC evaluates Lex!PortionValue (base-ten value of a spelling) and Sem!Render", "the harness decodes a rendered 'a/b' into two integers",
+                        "numerals longer than 9 digits are covered by the scaling lift (same value spelled with 25 more digits renders identically) and by opaque transport"]
+    front.c13(ctx)
+    return ctx.finish("model_checking", "exhaustive: every ratio / percentage spelling over the digit alphabet and lengths of Portions_<tier>.cfg with value in [0,1] "
+                      "(leading zeros, optional spaces), each through 4 channels (literal / variable x rendered value / split) plus long-numeral variants; "
+                      "round trip: listed + random values of the six types (numbers and monetaries up to 60 digits, any sign) through metadata and back; "
+                      "non-trivial = spelling with leading zeros or spaces, value longer than 19 characters or with special characters", exhaustive=True)
+
+
+@check("C15")
+def c15(ctx):
+    ctx.assumptions += ["TLC evaluates Syntax.tla (the printing machine is the specification of the concrete syntax: token order, separators, line/column counting)",
+                        "the harness's pre-order walk over parser.Program and its flattening of the projected tree",
+                        "characters outside the Basic Multilingual Plane are not generated (TLC strings are UTF-16)"]
+    front.c15(ctx)
+    return ctx.finish("model_checking", "trees from a grammar-complete generator (every alternative of every rule, typed or not, exotic lexemes) printed by Syntax.tla under "
+                      "seeded layouts at every gap (3 seeds per tree) and under every layout of the alphabet at every single gap of small trees (exhaustive); "
+                      "one evaluation = one printed text parsed by the real parser and compared node by node; non-trivial = >= 10 nodes with ranges")
+
+
 def replay(path):
     rp = json.load(open(path))
     prop = rp.get("property", "C00")
@@ -290,6 +313,22 @@ def replay(path):
             os.environ["VERIF_SEED"] = str(rp.get("seed", 1))
             c = Ctx("C11", "quick", int(rp.get("seed", 1)))
             return CHECKS["C11"](c)
+        if rp["kind"] in ("front", "diag", "nav"):
+            hits = front.confirm_front(ctx, rp)
+            print(json.dumps(rp.get("observed_again"), indent=1)[:3000])
+            if hits:
+                print("VIOLATION property=%s replay=%s" % (prop, path))
+                return 1
+            print("not reproduced")
+            return 0
+        if rp["kind"] == "value":
+            hits = front.confirm_value(ctx, rp)
+            print(json.dumps(rp.get("observed_again"), indent=1)[:3000])
+            if hits:
+                print("VIOLATION property=%s replay=%s" % (prop, path))
+                return 1
+            print("not reproduced")
+            return 0
         if rp["kind"] == "store":
             hits = store.confirm_store(ctx, rp)
             print(json.dumps(rp.get("observed"), indent=1)[:3000])
